@@ -24,7 +24,12 @@ Bl(a) == [k |-> "blob", f |-> "", kids |-> <<>>, a |-> a, subj |-> ""]
 K(n, t) == [n |-> n, t |-> t]
 Im(f, kids, a, subj) == [k |-> "image", f |-> f, kids |-> kids, a |-> a, subj |-> subj]
 Ix(f, kids) == [k |-> "index", f |-> f, kids |-> kids, a |-> "", subj |-> ""]
-Rt(n, tag) == [n |-> n, t |-> "man", tag |-> tag]
+\* a manifests[] entry of index.json: node, media type class, tag it is stored / exported under, and ref = the value
+\* of the org.opencontainers.image.ref.name annotation (the bare tag, unless another tool wrote a full image name)
+Rt(n, tag) == [n |-> n, t |-> "man", tag |-> tag, ref |-> tag]
+RtF(n, tag, ref) == [n |-> n, t |-> "man", tag |-> tag, ref |-> ref]
+IxA(a) == [k |-> "index", f |-> "oci", kids |-> <<>>, a |-> a, subj |-> ""]     \* an empty index told apart by an annotation
+TagNodes == [r1 |-> IxA("t1"), r2 |-> IxA("t2"), r3 |-> IxA("t3")]
 NoDocker == <<>>
 
 \* nodes: name -> node; roots: the manifests[] of index.json; victim: the entry link patterns are applied to
@@ -93,6 +98,13 @@ Graphs == [
                        m2 |-> Im("docker", <<K("c2", "cfg"), K("l", "lay")>>, "", ""),
                        c1 |-> Bl("cfg"), c2 |-> Bl("cfg"), l |-> Bl("norm")],
             roots |-> <<Rt("dl", "v1")>>, victim |-> "l"],
+  \* archives of other tools with several tagged entries in index.json whose names are related: suffix and prefix,
+  \* substring and case, and a full image name (as skopeo / podman write it) next to bare tags.  The order of the
+  \* entries is a scenario dimension (patterns o1..o6, see Orders).
+  tagsuf |-> [nodes |-> TagNodes, roots |-> <<Rt("r1", "rc-latest"), Rt("r2", "latest"), Rt("r3", "latest-rc")>>, victim |-> "r1"],
+  tagsub |-> [nodes |-> TagNodes, roots |-> <<Rt("r1", "xlatestx"), Rt("r2", "latest"), Rt("r3", "Latest")>>, victim |-> "r1"],
+  tagfull |-> [nodes |-> TagNodes, roots |-> <<Rt("r1", "rc-latest"), RtF("r2", "full", "registry.example/repo:latest"),
+                                               Rt("r3", "test")>>, victim |-> "r1"],
   \* archive of another tool: index.json with two images sharing a layer
   multi |-> [nodes |-> [m1 |-> Im("oci", <<K("c1", "cfg"), K("ls", "lay")>>, "", ""),
                         m2 |-> Im("oci", <<K("c2", "cfg"), K("ls", "lay")>>, "", ""),
@@ -184,14 +196,26 @@ Sels == [def |-> [by |-> "tag", v |-> "imp", pre |-> "none"],        \* plain im
          name2 |-> [by |-> "name", v |-> "v2", pre |-> "none"], dig2 |-> [by |-> "digest", v |-> "m2", pre |-> "none"],
          dkname |-> [by |-> "name", v |-> "q:z", pre |-> "none"],
          dkrest |-> [by |-> "name", v |-> "x:v1", pre |-> "none"],
+         \* multi entry archives with related names: by the tag of the target reference, by its default tag (reference
+         \* without tag), by ImageWithImportName (a tag, the longer tag, a full image name), by digest
+         tlatest |-> [by |-> "tag", v |-> "latest", pre |-> "none"], tdefault |-> [by |-> "default", v |-> "latest", pre |-> "none"],
+         nlatest |-> [by |-> "name", v |-> "latest", pre |-> "none"], nrc |-> [by |-> "name", v |-> "rc-latest", pre |-> "none"],
+         nfull |-> [by |-> "name", v |-> "registry.example/repo:latest", pre |-> "none"],
+         dsel |-> [by |-> "digest", v |-> "r2", pre |-> "none"],
          preblobs |-> [by |-> "tag", v |-> "imp", pre |-> "blobs"], preall |-> [by |-> "tag", v |-> "imp", pre |-> "all"],
          \* the tag exists at the target and names something else
          prestale |-> [by |-> "tag", v |-> "imp", pre |-> "stale"],
          \* a single image archive imported to a reference that carries only a digest (pushed by digest, nothing tagged)
          dig1 |-> [by |-> "digest", v |-> "m", pre |-> "none"]]
-WantOf(g, sel) == IF Len(g.roots) = 1 THEN g.roots[1].n
-                  ELSE IF sel.by = "digest" THEN sel.v
-                  ELSE g.roots[CHOOSE i \in 1..Len(g.roots) : g.roots[i].tag = sel.v].n
+\* the orders of three index.json entries
+Orders == [o1 |-> <<1, 2, 3>>, o2 |-> <<1, 3, 2>>, o3 |-> <<2, 1, 3>>, o4 |-> <<2, 3, 1>>, o5 |-> <<3, 1, 2>>, o6 |-> <<3, 2, 1>>]
+RootsOf(g, lp) == IF lp \in DOMAIN Orders THEN [i \in 1..3 |-> g.roots[Orders[lp][i]]] ELSE g.roots
+\* the entry the import has to bring over: the only one, the one with the digest, or the (first) one whose ref.name
+\* annotation IS the requested tag / name; "" when the archive names nothing so (the import then has to fail)
+WantOf(roots, sel) == IF Len(roots) = 1 THEN roots[1].n
+                      ELSE IF sel.by = "digest" THEN sel.v
+                      ELSE LET M == {i \in 1..Len(roots) : roots[i].ref = sel.v}
+                           IN IF M = {} THEN "" ELSE roots[CHOOSE i \in M : \A j \in M : i <= j].n
 NLinks(E) == Cardinality({e \in E : e.kind \in {"sym", "hard"}})
 \* an index entry that the importer treats as a blob: as found it was uploaded from a drained reader (S6, C09-1;
 \* switch DrainBug) and failed unless the blob was empty
@@ -214,15 +238,16 @@ Mk(gn, lp, sn) ==
            maxpass |-> 2, pretag |-> "", preblobs |-> {}, premans |-> {}, bad |-> ""]
   ELSE IF gn \in DOMAIN Graphs
   THEN LET g == Graphs[gn]
-           E == WithLink(BaseEntries(g), g.victim, lp)
-           want == WantOf(g, Sels[sn])
-       IN [kind |-> "oci", g |-> gn, lp |-> lp, sel |-> Sels[sn], nodes |-> g.nodes, roots |-> g.roots,
+           E == WithLink(BaseEntries(g), g.victim, IF lp \in DOMAIN Orders THEN "none" ELSE lp)
+           roots == RootsOf(g, lp)
+           want == WantOf(roots, Sels[sn])
+       IN [kind |-> "oci", g |-> gn, lp |-> lp, sel |-> Sels[sn], nodes |-> g.nodes, roots |-> roots,
            docker |-> DockerOf(g), entries |-> E, want |-> want, dkwant |-> [cfg |-> "", layers |-> <<>>],
-           maxpass |-> DepthN(g.nodes, want) + 1 + NLinks(E),
+           maxpass |-> (IF want = "" THEN 1 ELSE DepthN(g.nodes, want) + 1) + NLinks(E),
            pretag |-> IF Sels[sn].pre = "stale" THEN "stale" ELSE "",
-           preblobs |-> IF Sels[sn].pre \in {"none", "stale"} THEN {} ELSE {n \in ClosureN(g.nodes, want) : g.nodes[n].k = "blob"},
-           premans |-> IF Sels[sn].pre = "all" THEN {n \in ClosureN(g.nodes, want) : g.nodes[n].k # "blob"} ELSE {},
-           bad |-> IF lp \in LinkBad THEN "link" ELSE IF DrainClass(g, want) /\ Sels[sn].pre = "none" THEN "drain" ELSE ""]
+           preblobs |-> IF Sels[sn].pre \in {"none", "stale"} \/ want = "" THEN {} ELSE {n \in ClosureN(g.nodes, want) : g.nodes[n].k = "blob"},
+           premans |-> IF Sels[sn].pre = "all" /\ want # "" THEN {n \in ClosureN(g.nodes, want) : g.nodes[n].k # "blob"} ELSE {},
+           bad |-> IF lp \in LinkBad THEN "link" ELSE IF want # "" /\ DrainClass(g, want) /\ Sels[sn].pre = "none" THEN "drain" ELSE ""]
   ELSE LET d == DkGraphs[gn]
            E == WithLink({F(<<"manifest.json">>, "docker")} \cup d.files, "", lp)
        IN [kind |-> "docker", g |-> gn, lp |-> lp, sel |-> Sels[sn], nodes |-> [none |-> Bl("norm")], roots |-> <<>>,
@@ -237,6 +262,12 @@ LinkAll == (LinkOK \cup LinkBad) \ {"none"}
 DkIds == ({"dk1", "dksym", "dksame", "dkdot"} \X {"none"} \X {"def"})
          \cup ({"dk2"} \X {"none"} \X {"dkname"}) \cup ({"dk1"} \X {"dotslash", "junk"} \X {"def"})
 MultiIds == {"multi"} \X {"none"} \X {"tag1", "tag2", "name2", "dig2"}
+\* related tag names x every order of the index.json entries x selection
+OrderNames == DOMAIN Orders
+TagIds == ({"tagsuf"} \X OrderNames \X {"tlatest", "nlatest", "nrc", "dsel"})
+          \cup ({"tagsub"} \X OrderNames \X {"tlatest", "tdefault"})
+          \cup ({"tagfull"} \X OrderNames \X {"tlatest", "nfull"})
+TagQuickIds == {"tagsuf"} \X {"o1", "o4"} \X {"tlatest", "nrc"}
 DkRestIds(G) == G \X {"dkrest"} \X {"dkrest"}
 
 \* quick: every order of the archives of three representative graphs, every link pattern on the smallest
@@ -244,13 +275,14 @@ DkRestIds(G) == G \X {"dkrest"} \X {"dkrest"}
 QuickIds == ({"eidx", "single1", "art"} \X {"none"} \X {"def"})
             \cup ({"eidx"} \X LinkAll \X {"def"})
             \cup ({"art"} \X {"symroot", "symsib"} \X {"def"})
-            \cup DkIds \cup DkRestIds({"single1"})
+            \cup DkIds \cup DkRestIds({"single1"}) \cup TagQuickIds
 \* small: the other archives of <= 6 entries
 SmallIds == ((OciSmall \ {"eidx", "single1", "art"}) \X {"none"} \X {"def"})
             \cup ({"art"} \X {"symabs", "hardext", "symup", "hardshared", "idxlink", "dotslash", "junk", "dirs"} \X {"def"})
             \cup ({"single1"} \X {"none"} \X {"preblobs", "preall", "prestale", "dig1"})
             \cup ({"alg512"} \X {"symroot"} \X {"def"})
             \cup DkRestIds({"emptyl", "dimg", "alg512", "extl"})
+            \cup TagIds
 \* mid: archives of 7 entries
 MidIds == (OciMid \X {"none"} \X {"def"})
           \cup ({"art"} \X {"chain2"} \X {"def"})
@@ -271,9 +303,10 @@ MidBfsIds == ({"single2", "nested", "blobent", "unkent", "emptyent", "sharedent"
 SimIds == MidIds \cup BigIds
 ThoroughIds == QuickIds \cup SmallIds \cup MidIds \cup BigIds
 \* scenario generation: every order for archives of <= 6 entries, random orders (-simulate) for the rest
-GenSmallIds == {x \in ThoroughIds : Cardinality(Mk(x[1], x[2], x[3]).entries) <= 6}
+\* (the related-name archives vary in the order of index.json, not of the tar entries: random tar orders only)
+GenSmallIds == {x \in ThoroughIds \ TagIds : Cardinality(Mk(x[1], x[2], x[3]).entries) <= 6}
 GenLargeIds == ThoroughIds \ GenSmallIds
-GenTinyIds == {x \in ThoroughIds : Cardinality(Mk(x[1], x[2], x[3]).entries) <= 5}
+GenTinyIds == {x \in ThoroughIds \ TagIds : Cardinality(Mk(x[1], x[2], x[3]).entries) <= 5}
 \* the classes on which the importer failed as found (expected counterexamples of the as-found switches) and liveness
 S6Ids == {"blobent", "unkent", "sharedent"} \X {"none"} \X {"def"}
 LinkBadIds == {"eidx"} \X LinkBad \X {"def"}
